@@ -78,7 +78,25 @@ def _parse(out, tag):
     return rows
 
 
-def lattice_phase(ck, pid, prop, binary, tier):
+class Pending:
+    """Violations aggregated per key (one VIOLATION line per key, whatever the number of spaces it shows on)."""
+
+    def __init__(self):
+        self.rows = {}
+
+    def add(self, key, desc, replay, n=1):
+        r = self.rows.setdefault(key, {"desc": [], "replay": replay, "n": 0})
+        r["desc"].append(desc)
+        r["n"] += n
+
+    def flush(self, ck):
+        for key in sorted(self.rows):
+            r = self.rows[key]
+            more = "" if len(r["desc"]) == 1 else " || also: " + " | ".join(d[:90] for d in r["desc"][1:6])
+            ck.violation(key, "[%d case(s)] %s%s" % (r["n"], r["desc"][0], more), r["replay"])
+
+
+def lattice_phase(ck, pend, pid, prop, binary, tier):
     """TLC on the lattice model, then replay of every emitted case.  Returns totals."""
     size = 1 if tier == "quick" else 2
     procs = 8 if tier == "quick" else 6
@@ -131,9 +149,9 @@ def lattice_phase(ck, pid, prop, binary, tier):
             n = summ["keys"].get(key, 1)
             rp = ck.replay_file("cases-%s-%s.ndjson" % (r["space"], vlib.digest(key)),
                                 header + json.dumps(fail["case"]["case"], separators=(",", ":")) + "\n")
-            ck.violation(key, "%d lattice case(s) of %s: %s; first: a=%s b=%s" %
-                         (n, r["space"], fail["why"], json.dumps(fail["case"]["case"].get("a")),
-                          json.dumps(fail["case"]["case"].get("b"))), rp)
+            pend.add(key, "%d lattice case(s) of %s: %s; first: a=%s b=%s" %
+                     (n, r["space"], fail["why"], json.dumps(fail["case"]["case"].get("a")),
+                      json.dumps(fail["case"]["case"].get("b"))), rp, n)
     if not ck.cov["samples"]:
         for sp in ("so2", "se3"):
             rows = vlib.read_ndjson(os.path.join(WORK, "%s-cases-%s.ndjson" % (pid.lower(), sp)))
@@ -200,7 +218,7 @@ def key_of(v):
     return k + (":" + v["tag"] if v["tag"] else "")
 
 
-def trace_phase(ck, pid, prop, binary, tier):
+def trace_phase(ck, pend, pid, prop, binary, tier):
     n = 40 if tier == "quick" else 400
     tpath = os.path.join(WORK, "%s-trace.ndjson" % pid.lower())
     rc, out, err = run_cmd([binary, "record%02d" % prop, tpath, str(n)], timeout=3000,
@@ -245,9 +263,9 @@ def trace_phase(ck, pid, prop, binary, tier):
             key = key_of(viol)
             rp = ck.replay_file("trace-%s.ndjson" % vlib.digest(key + viol["space"]), hdr + "\n" + evs[viol["line"] - 1] + "\n")
             obs = {k2: bad[k2] for k2 in bad if k2 not in ("repro", "e")}
-            ck.violation(key, "%s: law '%s' broken on %d recorded %s (probe class %s); first: %s; observed %s" %
-                         (viol["space"], viol["law"], viol["n"], "triples" if prop == 6 else "interpolation probes",
-                          bad.get("cls"), bad.get("repro"), json.dumps(obs, separators=(",", ":"))[:600]), rp)
+            pend.add(key, "%s: law '%s' broken on %d recorded %s (probe class %s); first: %s; observed %s" %
+                     (viol["space"], viol["law"], viol["n"], "triples" if prop == 6 else "interpolation probes",
+                      bad.get("cls"), bad.get("repro"), json.dumps(obs, separators=(",", ":"))[:330]), rp, viol["n"])
     if prop == 6:
         need = ["spaces", "triples", "triangle", "symmetry", "extent", "compound", "unequal"]
     else:
@@ -270,8 +288,10 @@ def run(pid, prop, tier, rule, assumptions):
     ck = Check(pid, tier, "exploration")
     ck.assumptions += assumptions
     binary = build_harness("spaces", needs_lib=True)
-    lat = lattice_phase(ck, pid, prop, binary, tier)
-    tr = trace_phase(ck, pid, prop, binary, tier)
+    pend = Pending()
+    lat = lattice_phase(ck, pend, pid, prop, binary, tier)
+    tr = trace_phase(ck, pend, pid, prop, binary, tier)
+    pend.flush(ck)
     ck.set("evaluations", lat["cases"] + tr["events"])
     ck.set("distinct_nontrivial", lat["nontrivial"] + tr["nontrivial"])
     ck.set("rule", rule)
